@@ -1,4 +1,10 @@
 //verif:dest internal/verifh/memfs/memfs.go
+//verif:replace@C01h os.OpenFile = OpenFile
+//verif:replace@C01h os.Open = Open
+//verif:replace@C01h os.Rename = Rename
+//verif:replace@C01h os.Remove = Remove
+//verif:replace@C01h (*os.File).Read = Read
+//verif:replace@C01h (*os.File).Close = Close
 //verif:replace@C17 os.OpenFile = OpenFile
 //verif:replace@C17 os.Open = Open
 //verif:replace@C17 os.Rename = Rename
